@@ -1,5 +1,6 @@
 import DadiVerif.Model.Proto
 import DadiVerif.Model.Admix
+import DadiVerif.Model.AdmixFloat
 /- driver ops for C06 (splits, admixture, pulses, removal, reordering on phi).
    request : `c06 fn <python function name> <proportions f1,f2,..> <grids g1;g2;..> <phi shape:data>`
              `c06 split1 <grid> <phi>`            phi_1D_to_2D
@@ -9,6 +10,11 @@ import DadiVerif.Model.Admix
              `c06 reorder <neworder a,b,..> <phi>`
              `c06 cell <zz> <phi> <adz>`          one cell of _admixture_intermediates: lower upper frac_lower frac_upper norm
              `c06 guard <python function name> <proportions>`   1 = the generated guard raises
+             `c06 mass <grids> <phi>`             full trapezoid sum (iterated Numerics.trapz), exact
+             `c06 guardfl <python function name> <seq|neumaier> <proportions>`   the generated FLOAT guard with binary64
+                                                  rounding and the given `sum` algorithm: 1 = raises
+             `c06 fsum <seq|neumaier> <numbers>`  that `sum` in binary64, exact value of the resulting double
+             `c06 rnd <number>`                   binary64 round-to-nearest-even of an exact rational
    answer  : `ok <shape:data>` | `err raises` | `err domain` | `err parse` -/
 namespace DadiVerif.Driver.Admix
 open DadiVerif DadiVerif.Proto DadiVerif.Admix
@@ -28,9 +34,9 @@ def handle (toks : List String) : Option String :=
       let f ← parseList props
       let gs ← parseGrids grids
       let T ← parseND phi
-      match findRow name with
-      | none => pure "err domain"
-      | some r => pure (showRes (applyRow r f gs (ofND T)))).getD "err parse"
+      match findRow name, findLoop name with
+      | some _, some _ => pure (showRes (applyByName name f gs (ofND T)))
+      | _, _ => pure "err domain").getD "err parse"
   | ["c06", "split1", grid, phi] => some <| (do
       let g ← parseList grid
       let T ← parseND phi
@@ -67,6 +73,27 @@ def handle (toks : List String) : Option String :=
       match findRow name with
       | none => pure "err domain"
       | some r => if f.length ≠ r.nf then pure "err domain" else pure ("ok " ++ (if r.guard f then "1" else "0"))).getD "err parse"
+  | ["c06", "mass", grids, phi] => some <| (do
+      let gs ← parseGrids grids
+      let T ← parseND phi
+      if T.shape ≠ gs.map Array.size then pure "err domain" else pure ("ok " ++ showRat (totalMass gs (ofND T)))).getD "err parse"
+  | ["c06", "guardfl", name, alg, props] => some <| (do
+      let f ← parseList props
+      match findFl name with
+      | none => pure "err domain"
+      | some r =>
+        if f.length ≠ r.nf then pure "err domain"
+        else if alg == "seq" then pure ("ok " ++ (if r.guardFl rndDouble (seqSum rndDouble) f then "1" else "0"))
+        else if alg == "neumaier" then pure ("ok " ++ (if r.guardFl rndDouble (neumaierSum rndDouble) f then "1" else "0"))
+        else pure "err domain").getD "err parse"
+  | ["c06", "fsum", alg, props] => some <| (do
+      let f ← parseList props
+      if alg == "seq" then pure ("ok " ++ showRat (seqSum rndDouble f))
+      else if alg == "neumaier" then pure ("ok " ++ showRat (neumaierSum rndDouble f))
+      else pure "err domain").getD "err parse"
+  | ["c06", "rnd", x] => some <| (do
+      let a ← parseRat x
+      pure ("ok " ++ showRat (rndDouble a))).getD "err parse"
   | "c06" :: _ => some "err parse"
   | _ => none
 
